@@ -80,6 +80,39 @@ type Remote struct {
 
 	mu      sync.Mutex
 	pending map[string]pendingMsg
+
+	// served is closed when Serve returns, serveErr is what it returned.
+	served   chan struct{}
+	serveErr error
+}
+
+// ErrServeEnded is returned by calls that were still waiting for their reply
+// when the connection's read loop ended without an error of its own.
+var ErrServeEnded = errors.New("jsonrpc2: connection closed while waiting for the reply")
+
+// servedChan returns the channel that is closed once Serve has returned.
+func (r *Remote) servedChan() chan struct{} {
+	r.mu.Lock()
+	defer r.mu.Unlock()
+	if r.served == nil {
+		r.served = make(chan struct{})
+	}
+	return r.served
+}
+
+// endServe releases the callers that are still waiting for a reply: nothing
+// will be read from the connection anymore.
+func (r *Remote) endServe(err error) {
+	served := r.servedChan()
+	r.mu.Lock()
+	defer r.mu.Unlock()
+	select {
+	case <-served:
+		// Already ended
+	default:
+		r.serveErr = err
+		close(served)
+	}
 }
 
 // clearPending removes num oldest entries that nobody is waiting on, must hold the r.mu lock.
@@ -138,6 +171,7 @@ func (r *Remote) Serve() error {
 	for {
 		msg, err := r.Codec.ReadMessage()
 		if err != nil {
+			r.endServe(err)
 			return err
 		}
 		if msg.Request != nil {
@@ -167,6 +201,22 @@ func (r *Remote) receiveFrom(ctx context.Context, key string, ch chan Message) (
 		// Nobody is waiting anymore, a late reply will be discarded.
 		r.dropPending(key)
 		return nil, ctx.Err()
+	case <-r.servedChan():
+		// The read loop is gone: the reply is either already here or will
+		// never come.
+		r.dropPending(key)
+		select {
+		case msg := <-ch:
+			return &msg, nil
+		default:
+		}
+		r.mu.Lock()
+		err := r.serveErr
+		r.mu.Unlock()
+		if err == nil {
+			err = ErrServeEnded
+		}
+		return nil, err
 	}
 }
 
